@@ -250,7 +250,8 @@ muggle_ma_ring_t *muggle_ma_ring_thread_ctx_init()
 		malloc(ctx->capacity * ctx->block_size);
 #endif
 	if (s_muggle_ma_ring_thread_ctx->buffer == NULL) {
-		muggle_ma_ring_thread_ctx_cleanup();
+		free(s_muggle_ma_ring_thread_ctx);
+		s_muggle_ma_ring_thread_ctx = NULL;
 		return NULL;
 	}
 
@@ -259,7 +260,9 @@ muggle_ma_ring_t *muggle_ma_ring_thread_ctx_init()
 
 	int ret = muggle_ma_ring_insert_thread_ctx(s_muggle_ma_ring_thread_ctx);
 	if (ret != 0) {
-		muggle_ma_ring_thread_ctx_cleanup();
+		free(s_muggle_ma_ring_thread_ctx->buffer);
+		free(s_muggle_ma_ring_thread_ctx);
+		s_muggle_ma_ring_thread_ctx = NULL;
 		return NULL;
 	}
 
